@@ -63,6 +63,17 @@ class Prop(BaseProp):
         for k in (ks[3], ks[-1], 1):
             for testnet in (False, True):
                 cases.append({"kind": "Addr", "prv": True, "key": "00" + k.to_bytes(32, "big").hex(), "testnet": testnet})
+        # the same points handed to PublicKey.parse in each accepted serialisation; raw x||y with x starting 02/03/04/06 looks like a prefix
+        import ecdsa as _ecdsa
+        special = []
+        kk = 2
+        while len(special) < 3 and kk < 3000:
+            if pubkey_of_scalar(kk)[1] in (2, 3, 4, 6, 7):
+                special.append(kk)
+            kk += 1
+        for j, k in enumerate([ks[0], ks[2]] + special):
+            for form in ("uncompressed", "hybrid", "raw", "compressed"):
+                cases.append({"kind": "Addr", "prv": False, "key": pubkey_of_scalar(k).hex(), "testnet": j % 2 == 1, "via_parse": form})
         lens = set(range(0, 201)) | {v + d for v in (55, 56, 63, 64, 119, 120, 127, 128, 183, 184, 191, 192, 247, 248, 255, 256, 511, 512, 1023, 1024) for d in (-1, 0, 1)}
         if T:
             lens |= set(range(0, 1025))
@@ -93,9 +104,19 @@ class Prop(BaseProp):
                         out.append(f(nd))
                     except Exception:
                         out.append("EXC")
-                # one PublicKey object reused across requests, in both orders
+                # one PublicKey object reused across requests, in both orders; optionally the object comes from PublicKey.parse
+                # of another accepted serialisation of the same point (uncompressed, hybrid 06/07, raw x||y as python-ecdsa takes them)
+                def the_key():
+                    form = case.get("via_parse")
+                    if not form:
+                        return nd.public_key
+                    from btc_hd_wallet.keys import PublicKey
+                    u = nd.public_key.sec(compressed=False)
+                    blob = {"uncompressed": u, "compressed": nd.public_key.sec(compressed=True),
+                            "hybrid": bytes([6 + (u[-1] & 1)]) + u[1:], "raw": u[1:]}[form]
+                    return PublicKey.parse(blob)
                 try:
-                    pk = nd.public_key
+                    pk = the_key()
                     pk.address(compressed=True, testnet=case["testnet"], addr_type="p2pkh")
                     pk.address(compressed=True, testnet=case["testnet"], addr_type="p2wpkh")
                     pk.h160()
@@ -103,7 +124,7 @@ class Prop(BaseProp):
                 except Exception:
                     out.append("EXC")
                 try:
-                    pk = nd.public_key
+                    pk = the_key()
                     pk.address(compressed=False, testnet=case["testnet"], addr_type="p2pkh")
                     pk.h160(compressed=False)
                     out.append(pk.address(compressed=True, testnet=case["testnet"], addr_type="p2pkh"))
